@@ -121,8 +121,9 @@ type lnRun struct {
 	id     int
 	ls     *LanceroSource
 	card   *lnCard
-	truth  [][]int // per physical frame: err values then raw fb values (readout order)
-	whole  []int
+	truth  [][]int // per APPARENT frame of the delivered stream: err values then raw fb values (readout order)
+	whole  []int   // index of each apparent frame (0,1,2,...): kept for the trace format
+	before int     // apparent frames that lie entirely before the loss
 	events []vmap
 }
 
@@ -154,20 +155,43 @@ func lnPrepare(id int, sc *lnScen) *lnRun {
 				fbs = append(fbs, fb)
 			}
 		}
-		run.truth = append(run.truth, append(errs, fbs...))
 	}
 	delivered := phys
+	cutAt := len(phys) + 1
 	if sc.Gap != nil && sc.Gap.Len > 0 {
 		delivered = append(append([]byte{}, phys[:sc.Gap.At]...), phys[sc.Gap.At+sc.Gap.Len:]...)
-		for f := 0; f < sc.NFrames; f++ {
-			if (f+1)*fsize <= sc.Gap.At || f*fsize >= sc.Gap.At+sc.Gap.Len {
-				run.whole = append(run.whole, f)
+		cutAt = sc.Gap.At
+	}
+	// Reference = what a perfect reader of the frame bits would emit: scan the delivered words; a frame is `cols` words
+	// with the frame bit followed by nw-cols words without it; anything else is skipped up to the next such pattern.
+	// (A frame glued from two by the loss with the pattern intact is well-formed as far as the stream shows.)
+	run.truth = nil
+	isF := func(i int) bool { return delivered[4*i+2]&1 == 1 }
+	nwords := len(delivered) / 4
+	for i := 0; i+nw <= nwords; {
+		ok := true
+		for j := 0; j < nw; j++ {
+			if isF(i+j) != (j < sc.Cols) {
+				ok = false
+				break
 			}
 		}
-	} else {
-		for f := 0; f < sc.NFrames; f++ {
-			run.whole = append(run.whole, f)
+		if !ok {
+			i++
+			continue
 		}
+		errs, fbs := make([]int, 0, nw), make([]int, 0, nw)
+		for j := 0; j < nw; j++ {
+			b := delivered[4*(i+j):]
+			errs = append(errs, int(int16(uint16(b[0])|uint16(b[1])<<8)))
+			fbs = append(fbs, int(uint16(b[2])|uint16(b[3])<<8))
+		}
+		run.truth = append(run.truth, append(errs, fbs...))
+		run.whole = append(run.whole, len(run.whole))
+		if 4*(i+nw) <= cutAt {
+			run.before = len(run.truth)
+		}
+		i += nw
 	}
 	ls := new(LanceroSource)
 	ls.name = "Lancero"
@@ -210,7 +234,7 @@ func (run *lnRun) execute() {
 	sc, ls, card := run.sc, run.ls, run.card
 	run.emit(vmap{"ev": "Config", "scen": run.id, "origin": sc.Origin, "cols": sc.Cols, "rows": sc.Rows, "nsampcard": sc.NsampCard,
 		"frame0": sc.Frame0, "mix": sc.Mix, "mix2": sc.Mix2, "mixafter": sc.MixAfter, "gap": sc.Gap != nil && sc.Gap.Len > 0,
-		"truth": run.truth, "whole": run.whole, "reads": sc.Reads, "fsize": card.fsize})
+		"truth": run.truth, "whole": run.whole, "beforegap": run.before, "reads": sc.Reads, "fsize": card.fsize})
 	var mixMu sync.Mutex
 	mixAtBlock := -1
 	nblocks := 0
